@@ -753,3 +753,49 @@ Proof.
               destruct (play_tone_protocol pin neg tbl st f q0) as [_ Hp]. destruct (Hp E') as [Hd _].
               rewrite Hd in H1. cbn in H1. discriminate.
 Qed.
+
+(* ------------------------------------------------------------------ sweep: the delays, one by one *)
+Lemma delays_sound pin f st : delays (snd (sound pin f st)) = [].
+Proof. unfold sound. destruct (qlt q0 f); reflexivity. Qed.
+
+Lemma sweep_loop_delay_list pin s e steps sd k : forall i st,
+  delays (snd (sweep_loop pin s e steps sd k i st)) = if qlt q0 sd then repeat (Qfloor sd) k else [].
+Proof.
+  induction k as [|k IH]; intros i st; [destruct (qlt q0 sd); reflexivity|].
+  cbn [sweep_loop].
+  pose proof (delays_sound pin (sweep_freq s e steps i) st) as Hs.
+  destruct (sound pin (sweep_freq s e steps i) st) as [st1 e1]. cbn [snd] in Hs.
+  specialize (IH (i + 1) st1).
+  destruct (sweep_loop pin s e steps sd k (i + 1) st1) as [st2 e3]. cbn [fst snd] in *.
+  rewrite !delays_app, Hs, IH, delays_qdelay. destruct (qlt q0 sd); reflexivity.
+Qed.
+
+Lemma step_delay_pos total n : 1 <= n -> qlt q0 (inject_Z total / inject_Z n) = (0 <? total).
+Proof.
+  intro Hn.
+  assert (Hnq : (0 < inject_Z n)%Q) by (change 0%Q with (inject_Z 0); rewrite <- Zlt_Qlt; lia).
+  destruct (0 <? total) eqn:E.
+  - apply Z.ltb_lt in E. apply qlt_true. apply Qlt_shift_div_l; [exact Hnq|].
+    rewrite Qmult_0_l. change 0%Q with (inject_Z 0). rewrite <- Zlt_Qlt. exact E.
+  - apply Z.ltb_ge in E. apply qlt_false. apply Qle_shift_div_r; [exact Hnq|].
+    unfold q0. rewrite Qmult_0_l. change 0%Q with (inject_Z 0). rewrite <- Zle_Qle. exact E.
+Qed.
+
+(* C16_sweep_delays: every step waits floor(duration) / steps ms (integer division; delay(0) when that is
+   0 but the duration is not), nothing at all for a zero duration *)
+Lemma sweep_delays : forall pin neg tbl st s e d steps,
+  qle q0 d = true ->
+  let n := Z.max 1 (c_int steps) in
+  delays (snd (dstep pin neg tbl st (Sweep s e d steps))) =
+  if 0 <? Qfloor d then repeat (Qfloor d / n) (Z.to_nat n) else [].
+Proof.
+  intros pin neg tbl st s e d steps Hd n.
+  destruct (c_ulong_nonneg neg d Hd) as [Ed Pd].
+  cbn [dstep]. unfold sweep. fold n. rewrite Ed.
+  pose proof (sweep_loop_delay_list pin (clamp0 s) (clamp0 e) n (inject_Z (Qfloor d) / inject_Z n)%Q
+               (Z.to_nat n) 0 st) as Hl.
+  destruct (sweep_loop pin (clamp0 s) (clamp0 e) n (inject_Z (Qfloor d) / inject_Z n)%Q (Z.to_nat n) 0 st)
+    as [st1 e1].
+  cbn [fst snd] in *. rewrite delays_app, Hl. cbn [delays flat_map]. rewrite app_nil_r.
+  rewrite step_delay_pos by (subst n; lia). rewrite <- Zdiv_Qdiv. reflexivity.
+Qed.
